@@ -12,7 +12,26 @@ pub fn threads() -> usize {
 
 /// Runs f(i) for every i in 0..n on the pool. Order of execution is arbitrary; callers collect
 /// results keyed by i so that reports are deterministic.
+fn gcd(a: usize, b: usize) -> usize {
+    if b == 0 {
+        a
+    } else {
+        gcd(b, a % b)
+    }
+}
+
+/// The k-th case handed out is case (k * stride) mod n with a golden-ratio stride coprime to n: a fixed
+/// permutation that mixes small and large cases on every worker (so that a worker has already built
+/// large symbols when it builds small ones and vice versa: history-dependent defects such as a stale
+/// per-thread cache get a chance to show in every sweep), while reports stay keyed by the case index.
 pub fn par_for<F: Fn(usize) + Sync>(n: usize, f: F) {
+    let mut stride = ((n as f64) * 0.618_033_988_75) as usize | 1;
+    while n > 1 && gcd(stride, n) != 1 {
+        stride += 2;
+    }
+    if n <= 2 {
+        stride = 1;
+    }
     let next = AtomicUsize::new(0);
     let nt = threads().min(n.max(1));
     std::thread::scope(|s| {
@@ -23,10 +42,11 @@ pub fn par_for<F: Fn(usize) + Sync>(n: usize, f: F) {
                 .name(format!("fqv-worker-{}", t))
                 .stack_size(32 << 20)
                 .spawn_scoped(s, move || loop {
-                    let i = next.fetch_add(1, Ordering::Relaxed);
-                    if i >= n {
+                    let k = next.fetch_add(1, Ordering::Relaxed);
+                    if k >= n {
                         break;
                     }
+                    let i = ((k as u128 * stride as u128) % n as u128) as usize;
                     crate::report::trace_case(t, i);
                     f(i);
                 })
